@@ -19,7 +19,6 @@ is the ground truth encoded in the generated uids (netgen.link_of); amplifier ba
 the element's final type_variety (per-band children of a multiband amplifier), intersected with own interval
 arithmetic; slot n has centre 193.1 THz + n * 6.25 GHz.
 """
-import copy
 import json
 from pathlib import Path
 
@@ -484,3 +483,10 @@ CHECKS = [
     Check('align', align_case(), run_align, quick=1500, thorough=40000, doc='align_grids / insert_left / insert_right'),
     Check('slot-arith', arith_case(), run_arith, quick=400, thorough=8000, doc='frequency <-> slot helpers'),
 ]
+FLOORS = {
+    'oms-map:oms:two-bands': (0.3, 'oms-map'),                       # per-OMS label: >= 0.3 per case on average
+    'oms-map:distinct-usable-layouts:2': (0.2, 'oms-map'),
+    'oms-map-any:net:some-oms-ends-below-network-fmax': (0.15, 'oms-map-any'),
+    'align:align:growth:left+right': (0.5, 'align'),
+    'align:insert:R:some': (0.15, 'align'),
+}
